@@ -62,6 +62,7 @@ func c07Ctx() pongo2.Context {
 		"cf": func() bool { atomic.AddInt64(&c07Calls, 1); return false },
 		// the same four kinds behind pointers, sized and named types
 		"pf25": &c07pf, "pi3": &c07pi, "ps": &c07ps, "pbt": &c07pb,
+		"ubig": uint64(1<<53 + 1), "ibig": int64(1 << 53), "ubig2": uint64(1 << 53), "ibig1": int(1<<53 + 1),
 		"f32": float32(1.5), "i64n": int64(-2), "u16": uint16(5), "nf": c07NF(0.25), "ni": c07NI(4), "ns": c07NS("a"), "nb": c07NB(true),
 	}
 }
@@ -107,6 +108,8 @@ var c07FullLeaves = []*xnode{
 	{text: "[1, 2, 3]", val: xval{k: kLI, n: 3}}, {text: "[\"a\", \"b\"]", val: xval{k: kLS, n: 2}},
 	// the four kinds behind pointers, sized and named types
 	leafI("pi3", 3), leafI("i64n", -2), leafI("u16", 5), leafI("ni", 4),
+	// integers beyond 2^53 of signed and unsigned kinds, one float64 ulp apart: equality is decided on the integers
+	leafI("ubig", 1<<53+1), leafI("ibig", 1<<53), leafI("ubig2", 1<<53), leafI("ibig1", 1<<53+1),
 	exo(leafF("pf25", 2.5)), exo(leafF("f32", 1.5)), exo(leafF("nf", 0.25)),
 	exo(leafS("ps", "a")), exo(leafS("ns", "a")), exo(leafB("pbt", true)), exo(leafB("nb", true)),
 }
@@ -760,6 +763,11 @@ func c07Rand(r *Rng, k xkind, depth int) *xnode {
 		for {
 			l := c07FullLeaves[r.Intn(len(c07FullLeaves))]
 			if l.val.k == k {
+				// huge values and NaN make most of a deep tree unjudgeable (overflow bounds): they stay rare in random
+				// trees; the exhaustive depth-2 enumeration covers them against every other leaf
+				if huge := (l.val.k == kI && (l.val.i > 1e12 || l.val.i < -1e12)) || (l.val.k == kF && (l.val.f > 1e12 || l.val.f != l.val.f)); huge && !r.Chance(8) {
+					continue
+				}
 				return l
 			}
 		}
@@ -830,10 +838,44 @@ func c07Rand(r *Rng, k xkind, depth int) *xnode {
 	}
 }
 
+// c07ErrorPlaces: a division or modulo by zero is an execution error wherever the expression is written
+func c07ErrorPlaces(c *C) bool {
+	ctx := c07Ctx()
+	ctx["ident"] = func(v *pongo2.Value) *pongo2.Value { return v }
+	ctx["im"] = map[int]string{0: "zero", 1: "one"}
+	for _, e := range []string{"1 / i0", "i7 % i0", "2.5 / i0", "1 / (i2 - 2)", "i1 / 0"} {
+		for _, src := range []string{
+			"{{ m[" + e + "] }}", "{{ im[" + e + "] }}", "{{ li[" + e + "] }}", "{{ ls[" + e + "] }}", "{{ sa[" + e + "] }}", "{% if m[" + e + "] %}t{% else %}f{% endif %}", "{{ im[0] + im[" + e + "] }}",
+			"{{ ident(" + e + ") }}", "{{ [1, " + e + "] }}", "{{ 1|add:(" + e + ")|add:1 }}", "{% with w=" + e + " %}w{% endwith %}", "{% set w = " + e + " %}x", "{% for q in li[" + e + "] %}q{% endfor %}",
+			"{% firstof 0 " + e + " %}", "{% ifequal 1 " + e + " %}e{% endifequal %}", "{% widthratio " + e + " 2 3 %}", "{% cycle " + e + " 2 %}", "{% ifchanged " + e + " %}c{% endifchanged %}",
+			"{% macro mm(a=" + e + ") %}{{ a }}{% endmacro %}{{ mm() }}", "{% macro mn(a) %}{{ a }}{% endmacro %}{{ mn(" + e + ") }}", "{% filter add:(" + e + ") %}1{% endfilter %}", "{% include \"/p.tpl\" with w=" + e + " %}",
+			"{{ true and " + e + " }}", "{{ false or " + e + " }}", "{{ not (" + e + ") }}", "{{ -(" + e + ") }}", "{{ (" + e + ") in li }}", "{{ 1 < " + e + " }}",
+		} {
+			set, _ := newSet(map[string]string{"/p.tpl": "p"})
+			tpl, err := set.FromString(src)
+			if err != nil {
+				continue // not every form is valid syntax (e.g. a parenthesised filter argument)
+			}
+			out, xerr := tpl.Execute(ctx)
+			c.Eval(1)
+			if xerr == nil {
+				c.Fail("missing-error", D{"source": src, "output": out, "expected": "an execution error (division or modulo by zero inside " + e + ")"})
+				return false
+			}
+			c.Nontrivial("errplace:" + src)
+		}
+	}
+	c.Cover("zero_division_in_every_expression_place")
+	return true
+}
+
 func c07Run(c *C) {
 	d2b, d3b, stride, _ := c07Plan(c.Tier)
 	set, _ := newSet(emptySetFiles)
 	ctx := c07Ctx()
+	if c.Idx == 0 && !c07ErrorPlaces(c) {
+		return
+	}
 	switch {
 	case c.Idx < d2b:
 		lo := c.Idx * c07Batch
